@@ -21,7 +21,9 @@ EXPLANATION = ("For each engine skeleton the presence of every operator and defu
 BOUNDS = {"quick": {"skeletons": "10 (and only / or only / both with hedges / `a or b and c` / no connectives / Takagi-Sugeno / Tsukamoto / hybrid "
                                  "with a rule concluding both kinds / two blocks / First activation)", "presence": "all subsets of up to 8 components per engine",
                     "inputs": "all finite reals"},
-          "thorough": {"as quick": "plus NaN/inf-free batch of 2 for the General engines"}}
+          "thorough": {"skeletons": "quick + 11 more: one per activation method (Last, Highest, Lowest, Proportional, Threshold, First with threshold) on rules "
+                                    "with and/or/hedges/weights, a weighted-defuzzified output read by a later block, parentheses and weights, three blocks, "
+                                    "an output variable read only in antecedents", "presence": "all subsets of up to 11 components per engine", "inputs": "all finite reals"}}
 OUTSIDE = ["engines without an activation method or with unparenthesised-token rule texts (excluded by the statement)",
            "engine design errors is_ready does not look at (mixed term kinds under one weighted defuzzifier, Function terms with unknown variables)",
            "non-finite inputs"]
@@ -54,6 +56,30 @@ def skeletons():
                         "blocks": [blk(["if X is a and Y is a then O is a"]), blk(["if X is b or O is a then P is b"])]}
     S_["first-activation"] = {"inputs": ins2, "outputs": [out("O", ("LargestOfMaximum", 2))],
                               "blocks": [blk(["if X is a and Y is b then O is a", "if X is b or Y is a then O is b"], ("First", 1, 0.0))]}
+    return S_
+
+
+def more_skeletons():
+    """thorough tier: every activation method, an output variable with a weighted defuzzifier read by a later block, weights and
+    parentheses, three blocks"""
+    def out(name, defz, terms=OUT_TERMS, agg="Maximum"):
+        return {"name": name, "terms": terms, "aggregation": agg, "defuzzifier": defz}
+
+    CONST = [("Constant", "a", 0.25), ("Constant", "b", 0.75)]
+    ins2 = [{"name": "X", "terms": IN_TERMS}, {"name": "Y", "terms": IN_TERMS}]
+    blk = lambda rules, act=("General",): {"conjunction": "Minimum", "disjunction": "Maximum", "implication": "Minimum", "activation": act, "rules": rules}
+    S_ = {}
+    mixed = ["if X is a and Y is b then O is a", "if X is b or Y is a then O is b", "if Y is very a then O is a with 0.5"]
+    for act in (("Last", 1, 0.0), ("Highest", 2), ("Lowest", 1), ("Proportional",), ("Threshold", ">", 0.25), ("First", 2, 0.5)):
+        S_[f"activation-{act[0]}"] = {"inputs": ins2, "outputs": [out("O", ("Centroid", 2))], "blocks": [blk(mixed, act)]}
+    S_["weighted-output-read-later"] = {"inputs": ins2, "outputs": [out("O", ("WeightedAverage",), CONST, None), out("P", ("Centroid", 2))],
+                                        "blocks": [blk(["if X is a and Y is a then O is a", "if X is b then O is b"]), blk(["if O is a or Y is b then P is b", "if O is b and X is a then P is a"])]}
+    S_["parentheses-and-weights"] = {"inputs": ins2, "outputs": [out("O", ("SmallestOfMaximum", 2))],
+                                     "blocks": [blk(["if ( X is a or Y is b ) and ( X is b or Y is a ) then O is a with 0.25", "if X is a then O is b with 0.75"])]}
+    S_["three-blocks"] = {"inputs": ins2, "outputs": [out("O", ("Centroid", 2)), out("P", ("WeightedSum",), CONST, None)],
+                          "blocks": [blk(["if X is a then O is a"]), blk(["if X is b and Y is b then P is a"]), blk(["if Y is a or X is a then O is b and P is b"])]}
+    S_["output-only-in-antecedent"] = {"inputs": ins2, "outputs": [out("O", ("Centroid", 2)), out("P", ("Bisector", 2))],
+                                       "blocks": [blk(["if X is a then O is a"]), blk(["if O is a and O is b then P is a", "if O is any or X is b then P is b"])]}
     return S_
 
 
@@ -102,6 +128,7 @@ def ob_skeleton(name, spec, label):
     def run(ob):
         fl = install()
         set_mode("R")
+        S.box_scalars = any(rb.get("activation", ("General",))[0] == "Proportional" for rb in spec["blocks"])   # `sum_degrees += degree`
         build = regeng.builder(fl)
         names_in = [iv["name"] for iv in spec["inputs"]]
         X = {v: rvar(f"x_{v}") for v in names_in}
@@ -171,4 +198,7 @@ def ob_skeleton(name, spec, label):
 
 
 def obligations(tier, seed):
-    return [(f"skeleton/{name}", ob_skeleton(name, spec, f"skeleton/{name}")) for name, spec in skeletons().items()]
+    sk = dict(skeletons())
+    if tier != "quick":
+        sk.update(more_skeletons())
+    return [(f"skeleton/{name}", ob_skeleton(name, spec, f"skeleton/{name}")) for name, spec in sk.items()]
